@@ -98,15 +98,19 @@ type LawEvent struct {
 	THash  Res   `json:"thash"`
 	TQuery Res   `json:"tquery"`
 	TRel   []Res `json:"trel"`
+	// the base VALUE after all the resolutions above, and the empty reference resolved against it once more (C06 / C13: a resolution
+	// writes nothing into its base - in particular not through a component pointer the result took over from it)
+	After  Res `json:"after"`
+	Empty2 Res `json:"empty2"`
 }
 
 var lawBases = []string{"http://u:p@h:8/a/b?q#f", "file:///C:/d/e", "x://h/a/b", "x:/a", "m:o", "ws://h2/"}
-var relRefs = []string{"a", "/a", "//a", "..", "\\a", "./b?c", "", "?", "#", ";x", "%41", "C|/x"}
+var relRefs = []string{"a", "/a", "//a", "..", "\\a", "./b?c", "", "?", "#", ";x", "%41", "C|/x", "?r#g", "?#", "b?c#d", "#?"}
 
 func lawEvent(in proj.Text, bs []proj.Text) LawEvent {
 	s := in.ToGo()
 	e := LawEvent{K: "law", In: in, Bs: bs, Self: []Res{}, Rel: []Res{}, RelRef: []proj.Text{}, TRel: []Res{},
-		TBase: Res{VE: VEList{}}, TEmpty: Res{VE: VEList{}}, THash: Res{VE: VEList{}}, TQuery: Res{VE: VEList{}}}
+		TBase: Res{VE: VEList{}}, TEmpty: Res{VE: VEList{}}, THash: Res{VE: VEList{}}, TQuery: Res{VE: VEList{}}, After: Res{VE: VEList{}}, Empty2: Res{VE: VEList{}}}
 	if bs == nil {
 		e.Bs = []proj.Text{}
 	}
@@ -145,6 +149,8 @@ func lawEvent(in proj.Text, bs []proj.Text) LawEvent {
 		e.Rel = append(e.Rel, call(func() (*url.Url, error) { return u.Parse(r) }))
 		e.RelRef = append(e.RelRef, proj.FromGo(r))
 	}
+	e.After = call(func() (*url.Url, error) { return u, nil })
+	e.Empty2 = call(func() (*url.Url, error) { return u.Parse("") })
 	var ut *url.Url
 	e.TBase = call(func() (*url.Url, error) {
 		var x *url.Url
